@@ -476,6 +476,21 @@ func (w *world) datagrams(now, offset uint32, full bool) []dg {
 			add("id.alias", refenc.Report{ID: id, Slot: s3, Power: power()}.Signed(w.A.Key.Priv).Bytes())
 		}
 	}
+	// (x) signature malleability: the algebraic twin (r, N-s) of a genuine signature, for a
+	// report that was already delivered and for one that never was
+	for i, old := range w.accepted {
+		if i >= 3 {
+			break
+		}
+		r, _ := refenc.ParseReport(old)
+		r.Sig = refenc.TwinSig(r.Sig)
+		add("sigtwin.delivered", r.Bytes())
+	}
+	if s, ok := freshSlot(); ok {
+		r := w.A.Report(s, power())
+		r.Sig = refenc.TwinSig(r.Sig)
+		add("sigtwin.fresh", r.Bytes())
+	}
 	// (ix) forgeries that reuse the signature of a datagram the server has ALREADY accepted
 	for _, old := range w.accepted {
 		for k := 0; k < 3; k++ {
@@ -608,7 +623,18 @@ func round(b run.Batch, r *ev.Result, seed int64, k int) {
 			r.Count("membership.restarts", 1)
 		}
 		if oi == 2 {
-			if st, err := dw.BanDevice(w.B.ID); err == nil && st != 200 {
+			banB := func() (int, error) {
+				if rng.Intn(2) == 0 {
+					return dw.BanDevice(w.B.ID)
+				}
+				// conflicting authorization for B's id that carries ANOTHER registered device's key
+				a := w.B.Auth
+				a.Pub = w.A.Key.Pub
+				st, _, err := dw.Authorize(a.Signed(dw.GCA.Priv))
+				r.Count("membership.banned_by_conflict_with_other_devices_key", 1)
+				return st, err
+			}
+			if st, err := banB(); err == nil && st != 200 {
 				delete(w.auth, w.B.ID)
 				w.banned[w.B.ID] = true
 				w.X, w.B = w.B, w.A // B is banned from now on
